@@ -80,6 +80,53 @@ def match_known(prop, failure, known):
     return None
 
 
+def tags_of(obligation):
+    """property tags (c04(c06(... ) at the head of a failed clause"""
+    m = re.search(r'#\w+\[((?:(?:c\d\d|aux)\()+)', obligation)
+    return set(re.findall(r'c\d\d|aux', m.group(1))) if m else set()
+
+
+def is_essential(f, P):
+    """Does the failure of this obligation BY ITSELF mean the property is violated?  (contracts/_props.py `essential`)
+    Anything else that fails inside the property's proof chain only costs the property its proof: the decision then rests on
+    the property's own bounded check of the real code."""
+    if f.get('kani_harness'):
+        return f['kani_harness'] in P.get('kani_essential', P.get('kani', []) + P.get('kani_thorough', []))
+    if f['obligation'].startswith('bounded::'):
+        return True
+    owner, kind = f.get('owner') or '', f.get('kind')
+    tags = tags_of(f['obligation'])
+    safety = kind in ('overflow', 'decreases', 'other') or (kind == 'pre' and f.get('in_source'))
+    for r in P.get('essential', []):
+        if not re.search(r['owners'], owner):
+            continue
+        if safety:
+            if r.get('safety'):
+                return True
+            continue
+        if tags:
+            if tags & set(r.get('tags', [])):
+                return True
+        elif r.get('untagged'):
+            return True
+    return False
+
+
+def drop_paired(failures, P):
+    """C05: the same clause failing in the blocking AND the async twin is a symmetric change: both front ends still agree"""
+    if not P.get('paired'):
+        return
+    def twin(o):
+        if '::AsyncIpp' in o:
+            return o.replace('::AsyncIpp', '::Ipp', 1)
+        return re.sub(r'::Ipp(Reader|Parser)::', r'::AsyncIpp\1::', o, count=1)
+    names = {f['obligation'] for f in failures}
+    for f in failures:
+        if f.get('essential') and f.get('owner') and twin(f['obligation']) != f['obligation'] and twin(f['obligation']) in names:
+            f['essential'] = False
+            f['paired'] = True
+
+
 def write_json(path, obj):
     os.makedirs(os.path.dirname(path), exist_ok=True)
     tmp = path + '.tmp'
@@ -185,7 +232,8 @@ def main():
             owner = f.get('owner') or ''
             if any(p.search(owner) for p in owner_pats):
                 failures.append({'obligation': f['obligation'], 'backend': 'verus/z3', 'message': f['message'],
-                                 'rendered': f['rendered'], 'spans': f['spans'], 'owner': owner})
+                                 'rendered': f['rendered'], 'spans': f['spans'], 'owner': owner,
+                                 'kind': f.get('kind'), 'in_source': f.get('in_source')})
         # a mapped function that failed only by rlimit -> inconclusive
         failed_fns = [o['name'] for o in obligations if o['status'] == 'failed']
         if failed_fns and not failures:
@@ -248,16 +296,17 @@ def main():
             'every single cut with 0-2 not-ready results, Interrupted at every offset; add-sequences <= 4')
     bounded_fail = [(c, j['failure']) for c, j in (bres['results'].items() if bres and bres['results'] else []) if j['failure']]
 
-    # a concrete failing input without a failed proof obligation: the defect sits in code left outside the verifier
-    # (trusted base / out-of-reach function) — still a real violation, replayed on the real code
-    if bounded_fail and not failures:
-        for c, msg in bounded_fail:
-            failures.append({'obligation': f'bounded::{c}', 'backend': 'bounded enumeration on the real code', 'message': msg,
-                             'bounded_case': msg})
-
     # ------------------------------------------------------------------ classify failures
     known = known_findings()
-    violations, kf_lines = [], []
+    kf_lines = []
+    unlisted_bf = []
+    for c, msg in bounded_fail:
+        k = match_known(prop, {'obligation': f'bounded::{c}', 'message': msg}, known)
+        if k:
+            kf_lines.append(f"KNOWN-FINDING: property={prop} {k.get('what', 'bounded::' + c)}")
+        else:
+            unlisted_bf.append((c, msg))
+    violations = []
     for f in failures:
         k = match_known(prop, f, known)
         if k:
@@ -265,46 +314,74 @@ def main():
             f['known_finding'] = k.get('id')
         else:
             violations.append(f)
+    for f in violations:
+        f['essential'] = is_essential(f, P)
+    drop_paired(violations, P)
+    ess = [f for f in violations if f['essential']]
+    sup = [f for f in violations if not f['essential']]
     rc = 0
     for line in sorted(set(kf_lines)):
         print(line)
-    if violations:
+
+    def emit(i, f, found, extra=None):
+        rp = {'property': prop, 'obligation': f['obligation'], 'backend': f['backend'],
+              'verifier_message': f['message'], 'verifier_output': f.get('rendered', ''),
+              'spans': f.get('spans'), 'repo_head': git_head(), 'repo_dirty': git_dirty(), 'failing_input_found': found}
+        rp.update(extra or {})
+        path = os.path.join(replay_dir, f'{prop}-{i}.json')
+        write_json(path, rp)
+        tail = '' if found else ' no-failing-input-found'
+        print(f'VIOLATION property={prop} replay={os.path.relpath(path, vpenv.VERIF)} obligation={f["obligation"]!r}{tail}')
+        ev['violations'] += 1
+
+    if unlisted_bf or ess:
         os.makedirs(replay_dir, exist_ok=True)
-        # one replay file per run, first violation leads
-        for i, f in enumerate(violations):
-            rp = {'property': prop, 'obligation': f['obligation'], 'backend': f['backend'],
-                  'verifier_message': f['message'], 'verifier_output': f.get('rendered', ''),
-                  'spans': f.get('spans'), 'repo_head': git_head(), 'repo_dirty': git_dirty()}
-            found = False
+    if unlisted_bf:
+        # a concrete input on which the real code breaks THIS property (the bounded check states the property itself)
+        case = {'replay_on_real_code': {'harness': 'bounded ' + ','.join(P['bounded']), 'failing_case': unlisted_bf[0][1],
+                                        'all': unlisted_bf}}
+        if ess:
+            for i, f in enumerate(ess):
+                emit(i, f, True, case)
+        else:
+            c, msg = unlisted_bf[0]
+            f = {'obligation': f'bounded::{c}', 'backend': 'bounded enumeration on the real code', 'message': msg}
+            # failed obligations of the proof chain that are not this property's own statement: named as the likely cause
+            case['supporting_obligations_failed'] = [{'obligation': x['obligation'], 'message': x['message']} for x in sup]
+            emit(0, f, True, case)
+        rc = 1
+    elif ess:
+        n_inconclusive = 0
+        for i, f in enumerate(ess):
+            extra, found = {}, False
             if f.get('kani_harness'):
                 try:
                     pb = kani.concrete_playback(scratch, f['kani_harness'])
                 except Exception as e:      # noqa
                     pb = {'found': False, 'error': str(e)}
-                rp['kani_playback'] = pb
+                extra['kani_playback'] = pb
                 found = bool(pb.get('found') and pb.get('replay_failed'))
-            elif f.get('bounded_case'):
-                rp['replay_on_real_code'] = {'harness': 'bounded ' + ','.join(P['bounded']), 'failing_case': f['bounded_case']}
-                found = True
-            elif bounded_fail:
-                rp['replay_on_real_code'] = {'harness': 'bounded ' + ','.join(P['bounded']), 'failing_case': bounded_fail[0][1],
-                                             'all': bounded_fail}
-                found = True
-            rp['failing_input_found'] = found
             if not found and f.get('hint_lost'):
                 # undecidable between proof brittleness and defect: do not alarm
-                rp['inconclusive'] = 'a proof-hint anchor was lost and no concrete failing input was found'
-                path = os.path.join(replay_dir, f'{prop}-inconclusive-{i}.json')
-                write_json(path, rp)
+                rp = {'property': prop, 'obligation': f['obligation'], 'verifier_message': f['message'],
+                      'inconclusive': 'a proof-hint anchor was lost and no concrete failing input was found'}
+                write_json(os.path.join(replay_dir, f'{prop}-inconclusive-{i}.json'), rp)
+                n_inconclusive += 1
                 continue
-            path = os.path.join(replay_dir, f'{prop}-{i}.json')
-            write_json(path, rp)
-            tail = '' if found else ' no-failing-input-found'
-            print(f'VIOLATION property={prop} replay={os.path.relpath(path, vpenv.VERIF)} obligation={f["obligation"]!r}{tail}')
-            ev['violations'] += 1
+            emit(i, f, found, extra)
             rc = 1
-        if rc == 0:
+        if rc == 0 and n_inconclusive:
             return inconclusive('obligation failed after a proof hint lost its anchor; no concrete failing input found')
+    proof_lost = None
+    if sup and rc == 0:
+        # the proof of this property no longer goes through, but no obligation that states the property itself failed and the
+        # property's own bounded check of the real code found nothing: not an alarm
+        proof_lost = [x['obligation'] for x in sup]
+        if not (bres and bres['ok']):
+            return inconclusive('supporting obligation(s) failed and there is no bounded check to fall back on: ' + '; '.join(proof_lost)[:300])
+        print(f'PROOF-LOST property={prop} supporting obligation(s) no longer verified: {"; ".join(proof_lost)[:400]} -- '
+              f'none of them states this property; bounded check {P["bounded"]} of the real code passed (not a proof)')
+        cov['proof_lost'] = [{'obligation': x['obligation'], 'message': x['message'], 'paired': x.get('paired', False)} for x in sup]
 
     if out_of_reach_msg and rc == 0:
         unlisted = [bf for bf in bounded_fail
@@ -352,6 +429,15 @@ def main():
                                'registry tables transcribed in /verif/kani/src/tables.rs']
     if kani_info:
         cov['kani'] = kani_info
+    if (proof_lost or cov.get('out_of_reach')) and bres and bres.get('results'):
+        # this run did not prove the property on this tree: what stands is the bounded exploration of the real code
+        ev['level'] = 'exploration'
+        cov['evaluations'] = sum(j['cases'] for j in bres['results'].values())
+        cov['distinct_nontrivial'] = sum(j['distinct'] for j in bres['results'].values())
+        cov['rule'] = ('proof not available on this tree (see proof_lost / out_of_reach); bounded enumeration instead: '
+                       + cov.get('bounded_bound', '') + '; distinct = distinct input byte strings / operation sequences')
+        cov['obligation_samples'] = cov['samples']
+        cov['samples'] = [x for j in bres['results'].values() for x in j.get('samples', [])[:3]] or ['(none recorded)']
     cov['uncovered'] = P.get('uncovered', [])
     ev['assumptions'] = P.get('assumptions', []) + [
         'Verus, Z3, rustc and ghost-code erasure are trusted' if verus_info else 'Kani/CBMC are trusted',
@@ -375,4 +461,13 @@ def git_dirty():
 
 
 if __name__ == '__main__':
-    sys.exit(main())
+    try:
+        rc_ = main()
+    except SystemExit:
+        raise
+    except BaseException as e:     # noqa: a crash of the machinery is never a verdict
+        import traceback
+        traceback.print_exc()
+        print(f'INCONCLUSIVE internal error in the checker: {type(e).__name__}: {e}'[:400])
+        rc_ = 2
+    sys.exit(rc_)
